@@ -88,6 +88,18 @@ func elem(shape string, j int, c *ctr) jl.Node {
 		return jl.Int(int64(50 + j))
 	case "str":
 		return jl.Str("t" + strconv.Itoa(j))
+	case "scal": // the element itself is null / an int / a string / an object / an array (scripts on `@` and on a member of it)
+		switch j % 5 {
+		case 0:
+			return jl.Null()
+		case 1:
+			return jl.Int(3)
+		case 2:
+			return jl.Str("s")
+		case 3:
+			return jl.Obj("x", jl.Int(1), "w", c.next())
+		}
+		return jl.Arr(c.next())
 	case "nul": // member a: null / absent / present, next to a distinct member b (null-sensitive scripts)
 		switch j % 4 {
 		case 0:
@@ -321,6 +333,23 @@ func matrix(args []string) {
 				emit(2, []jl.Frag{jl.FRoot(), f, jl.FChild("b")}, d)
 				emit(3, []jl.Frag{jl.FRoot(), jl.FNth(-2), f, jl.FWild()}, jl.Arr(d, jl.Int(77)))
 			}
+		}
+	}
+	// scripts that are TRUE on a null element (and on scalar / container elements): the element itself is the operand
+	for _, f := range []jl.Frag{
+		jl.FFilter("eqs", "", jl.Null()), jl.FFilter("nes", "", jl.Null()), jl.FFilter("eqs", "", jl.Int(3)), jl.FFilter("nes", "", jl.Int(3)),
+		jl.FFilter("nes", "", jl.Str("s")), jl.FFilter("gts", "", jl.Int(1)), jl.FFilter("nek", "x", jl.Int(1)), jl.FFilter("nek", "x", jl.Int(2)),
+		jl.FFilter("eqnothing", "x", jl.Null()), jl.FFilter("nenull", "x", jl.Null()),
+	} {
+		for _, ct := range []cont{{"arr", 0}, {"arr", 1}, {"arr", 3}, {"arr", 5}, {"obj", 1}, {"obj", 4}} {
+			c := &ctr{n: 100}
+			d := mkCont(ct, "scal", c)
+			emit(2, []jl.Frag{jl.FRoot(), f}, d)
+			emit(3, []jl.Frag{jl.FRoot(), jl.FChild("a"), f}, jl.Obj("a", d, "q", jl.Int(9999)))
+			emit(3, []jl.Frag{jl.FRoot(), jl.FNth(1), f}, jl.Arr(jl.Int(77), d))
+			emit(2, []jl.Frag{jl.FRoot(), f, jl.FChild("w")}, d)
+			emit(2, []jl.Frag{jl.FRoot(), f, jl.FWild()}, d)
+			emit(3, []jl.Frag{jl.FRoot(), jl.FWild(), f}, jl.Arr(d, jl.Arr(jl.Null(), jl.Int(4242))))
 		}
 	}
 	// child / union-of-names steps over objects of struct shape behind other fragments (embedded + shadowed struct shapes)
